@@ -568,7 +568,7 @@ func c10Frags() (map[string]*Fragment, []string) {
 	fr["fu2"] = &Fragment{Name: "fu2", Leaves: []Leaf{leaf("11", "if", e1, "unit", u1, "vlan"), leaf("50", "if", e1, "unit", u5, "vlan")}}
 	fr["fu3"] = &Fragment{Name: "fu3", Leaves: []Leaf{leaf("10", "if", e1, "unit", u1, "vlan")}}
 	// mk4 -> mk5 changes only the non-key leaf of an existing two-key entry
-	return fr, []string{"fa", "fb", "fd", "fp", "fg", "fh", "mk4", "mk5", "ca1", "cpc", "fu1", "fu2", "fu3"}
+	return fr, []string{"fa", "fb", "fd", "fp", "fg", "fh", "fm", "mk4", "mk5", "ca1", "cpc", "fu1", "fu2", "fu3"}
 }
 
 // c10GNMIPhases: the production gnmiTarget (target.New) connected to an in-process gNMI server, once per encoding.
